@@ -55,6 +55,27 @@ def query_item(draw):
     return {"op": op, "dialect": draw(st.sampled_from(("duckdb", "", "postgres", "bigquery", "snowflake", "mysql", "spark", "tsql"))), "write": "", "sql": q["sql"]}
 
 
+# mixed-case names used BOTH as table and as column names: a reused MappingSchema must answer each lookup like a fresh one even
+# though the same spelling was normalised before as the other kind of name (BigQuery: tables case-sensitive, columns not)
+SCHEMA_MAPPINGS = [
+    {"Users": {"Id": "INT", "Items": "STRING", "Amount": "FLOAT64"}, "Items": {"Users": "INT", "id": "INT"}, "Amount": {"Items": "INT", "Id": "STRING"}},
+    {"t": {"Users": "INT", "a": "INT"}, "Users": {"t": "INT", "A": "STRING"}},
+    {"ab": {"Cd": "INT", "Ef": "STRING"}, "Cd": {"ab": "INT", "EF": "STRING"}},  # no two names of one kind collide case-insensitively
+]
+# UDF names collide with column spellings as well; the worker lists tables/columns in canonical order in the baseline and in a
+# configuration-specific shuffled order elsewhere (a mapping is a set of registrations: its answers must not depend on that order)
+SCHEMA_UDFS = [{"Amount": "STRING", "Id": "INT"}, {"Users": "INT", "a": "STRING"}, {"Ef": "INT", "ab": "STRING"}]
+SCHEMA_NAMES = ("Users", "users", "USERS", "Items", "items", "Amount", "amount", "Id", "id", "ID", "t", "T", "a", "A", "ab", "AB", "Cd", "cd", "Ef", "EF")
+
+
+@st.composite
+def schema_item(draw):
+    m = draw(st.integers(0, len(SCHEMA_MAPPINGS) - 1))
+    kind = draw(st.sampled_from(("cols", "type", "type", "has", "optimize", "udf", "udf")))
+    return {"op": "schema", "dialect": draw(st.sampled_from(("bigquery", "bigquery", "snowflake", "postgres", "mysql", "duckdb", ""))), "write": "", "sql": "", "m": m, "kind": kind,
+            "table": draw(st.sampled_from(SCHEMA_NAMES)), "col": draw(st.sampled_from(SCHEMA_NAMES))}
+
+
 def _run_config(path, cfg):
     hs, order_seed, reuse, pollute = cfg
     env = dict(os.environ)
@@ -86,7 +107,7 @@ def check_workload(work, res=None, configs=CONFIGS):
     for ci, out in enumerate(outs[1:], start=1):
         for k, v in base.items():
             it = items[int(k)]
-            changed = it["op"] in ("optimize", "simplify", "qualify", "lineage", "annotate")
+            changed = it["op"] in ("optimize", "simplify", "qualify", "lineage", "annotate", "schema")
             if res is not None:
                 res.case(core.h8([it, configs[ci]]), bool(changed or configs[ci][2]), [f"op:{it['op']}", f"config:{ci}"])
             if out.get(k) != v:
@@ -106,7 +127,7 @@ def check_workload(work, res=None, configs=CONFIGS):
 
 
 def plan(tier):
-    return [{"core": 110, "query": 40, "depth": 3}] * 16 if tier == "quick" else [{"core": 1500, "query": 500, "depth": 3}] * 32
+    return [{"core": 110, "query": 40, "schema": 60, "depth": 3}] * 16 if tier == "quick" else [{"core": 1500, "query": 500, "schema": 600, "depth": 3}] * 32
 
 
 def run_shard(spec, seed, res, only_bucket=None):
@@ -115,7 +136,8 @@ def run_shard(spec, seed, res, only_bucket=None):
     scratch = core.Res()
     core.drive(core_item(spec["depth"]), lambda it, r: items.append(it) or [], seed, spec["core"], scratch)
     core.drive(query_item(), lambda it, r: items.append(it) or [], seed + 1, spec["query"], scratch)
-    work = {"items": items, "schema": queries.schema_dict()}
+    core.drive(schema_item(), lambda it, r: items.append(it) or [], seed + 2, spec.get("schema", 0), scratch)
+    work = {"items": items, "schema": queries.schema_dict(), "mappings": SCHEMA_MAPPINGS, "udfs": SCHEMA_UDFS}
     fails = check_workload(work, res)
     for b, d in fails:
         res.fail(b, work, d)
@@ -128,9 +150,9 @@ def replay(case):
 
 def minimize(case, bucket):
     """ddmin over the workload items while the same bucket still fails (configs kept)."""
-    items = core.ddmin(list(case["items"]), lambda sub: any(b == bucket for b, _ in check_workload({"items": sub, "schema": case["schema"]}, None)), budget=10)
-    return {"items": items, "schema": case["schema"]}
+    items = core.ddmin(list(case["items"]), lambda sub: any(b == bucket for b, _ in check_workload(dict(case, items=sub), None)), budget=10)
+    return dict(case, items=items)
 
 
 HYP_SHRINK = False
-MIN_CLASSES = {"quick": {"op:optimize": 300, "op:transpile": 500, "config:3": 1000}}
+MIN_CLASSES = {"quick": {"op:optimize": 300, "op:transpile": 500, "op:schema": 1500, "config:3": 1000}}
